@@ -559,7 +559,7 @@ pub struct Cold {
     pub snap: Snap,
 }
 
-fn run_blind_typed<K: Fam>(h: &History, upto: usize, enc_first: bool) -> Result<Option<(Vec<CallRes>, Cold)>, String> {
+fn run_blind_typed<K: Fam>(h: &History, upto: usize, order: u8) -> Result<Option<(Vec<CallRes>, Cold)>, String> {
     let fam_of = |i: usize| -> FamId {
         if h.alt_keys.contains(&i) {
             match h.fam {
@@ -611,14 +611,27 @@ fn run_blind_typed<K: Fam>(h: &History, upto: usize, enc_first: bool) -> Result<
     }
     let cold = guarded(|| {
         let (text, size, enc);
-        if enc_first {
-            enc = alloy_rlp::encode(&enr);
-            size = enr.size();
-            text = enr.to_base64();
-        } else {
-            text = enr.to_base64();
-            size = enr.size();
-            enc = alloy_rlp::encode(&enr);
+        match order % 3 {
+            0 => {
+                enc = alloy_rlp::encode(&enr);
+                size = enr.size();
+                text = enr.to_base64();
+            }
+            1 => {
+                text = enr.to_base64();
+                size = enr.size();
+                enc = alloy_rlp::encode(&enr);
+            }
+            _ => {
+                // identity-related accessors first
+                let _ = enr.node_id();
+                let _ = guarded(|| enr.verify());
+                let _ = guarded(|| K::pk_bytes(&enr.public_key()));
+                let _ = enr.iter().count();
+                size = enr.size();
+                text = format!("{enr}");
+                enc = alloy_rlp::encode(&enr);
+            }
         }
         Cold { text, size, enc, snap: snap(&enr) }
     })
@@ -628,13 +641,13 @@ fn run_blind_typed<K: Fam>(h: &History, upto: usize, enc_first: bool) -> Result<
 
 /// Blind run of the first `upto` operations of `h`, then a cold observation.  None = the history
 /// cannot be run (invalid keys, no initial record, a panic: other checks deal with those).
-pub fn run_blind(h: &History, upto: usize, enc_first: bool) -> Result<Option<(Vec<CallRes>, Cold)>, String> {
+pub fn run_blind(h: &History, upto: usize, order: u8) -> Result<Option<(Vec<CallRes>, Cold)>, String> {
     match h.fam {
-        FamId::K256 => run_blind_typed::<k256::ecdsa::SigningKey>(h, upto, enc_first),
-        FamId::Libsecp => run_blind_typed::<secp256k1::SecretKey>(h, upto, enc_first),
-        FamId::Ed => run_blind_typed::<ed25519_dalek::SigningKey>(h, upto, enc_first),
-        FamId::CombinedSecp | FamId::CombinedEd => run_blind_typed::<enr::CombinedKey>(h, upto, enc_first),
-        FamId::Var | FamId::Wide => run_blind_typed::<VarKey>(h, upto, enc_first),
-        FamId::Tiny | FamId::Mid => run_blind_typed::<crate::keys::TinyKey>(h, upto, enc_first),
+        FamId::K256 => run_blind_typed::<k256::ecdsa::SigningKey>(h, upto, order),
+        FamId::Libsecp => run_blind_typed::<secp256k1::SecretKey>(h, upto, order),
+        FamId::Ed => run_blind_typed::<ed25519_dalek::SigningKey>(h, upto, order),
+        FamId::CombinedSecp | FamId::CombinedEd => run_blind_typed::<enr::CombinedKey>(h, upto, order),
+        FamId::Var | FamId::Wide => run_blind_typed::<VarKey>(h, upto, order),
+        FamId::Tiny | FamId::Mid => run_blind_typed::<crate::keys::TinyKey>(h, upto, order),
     }
 }
